@@ -83,9 +83,9 @@ func GetToken(input string, valTy *ValType, pos *int) int {
 	Fetched++
 	if Fetched == NestAt {
 		NestAt = -1
-		sr, sf := Reds, Fetched
+		sr, sf, ss := Reds, Fetched, Steps
 		NestResult = runNested(NestInput)
-		Reds, Fetched = sr, sf
+		Reds, Fetched, Steps = sr, sf, ss
 	}
 	if *pos >= len(input) { return -1 }
 	zzc := int(input[*pos]) - 'a'
